@@ -7,7 +7,8 @@ TRUSTED_TRACKS = [
     "models of networkx.DiGraph (has_node/has_edge/add/remove/degrees/successors/predecessors/in_edges/out_edges, node and edge "
     "attribute views) in pyvc/tracksmodel.py - conformance-tested natively (native/conformance.py)",
     "declared heap shape of SolutionTracks (pyvc/tracksfactory.py) - compared with a really constructed object (native/shape_check.py)",
-    "contract of TrackAnnotator._handle_update_track_ids (DESIGN 5.3) used at call sites; its preconditions P1/P2 are proved at every call site",
+    "contract of TrackAnnotator._handle_update_track_ids (DESIGN 5.3) used at call sites; its preconditions are proved at every call site and the contract itself "
+    "(attribute and lookup halves) is proved of the real body in contracts/walk.py + contracts/bookkeeping.py",
     "contracts of SolutionTracks.get_track_neighbors / has_track_id_at_time used at call sites (their bodies: C06)",
     "ghost forest theory: facts of the descendant closure (M3) and the segment facts (M2') - Lean lemmas in theory/lean, see coverage.lemmas",
 ]
